@@ -201,6 +201,11 @@ class Runner(object):
         if d in W.PN53X_FAMILY:
             if kind in ('status', 'empty') and w.sim.fault_payload is not None:
                 return 'pn53x %s %s %s' % (direction, pn_kind(d, cmd), hexarg(w.sim.fault_payload))
+            if kind == 'payload' and cmd == 0x06 and w.sim.fault_payload is not None:
+                return 'readreg %s %d %d %s' % (direction, 1 if d == 'pn533' else 0, len(w.sim.fault_cmd_data) // 2,
+                                                hexarg(w.sim.fault_payload))
+            if kind == 'payload' and fault[1] == 0 and w.sim.fault_payload is not None and pn_kind(d, cmd) != 'nostatus':
+                return 'pn53x %s %s -' % (direction, pn_kind(d, cmd))
             if kind == 'errframe' and d != 'acr122':
                 return 'errframe ' + direction
             if kind in ('ioerror', 'timeout'):
@@ -217,6 +222,8 @@ class Runner(object):
                 return 'rcs380b %s %d %d %d %d' % (direction, b[0], b[1], b[2], b[3])
             if kind == 'status' and cmd in (0x00, 0x02):
                 return 'rcs380setup %d' % fault[1]
+            if kind == 'payload' and cmd in (0x04, 0x48) and w.sim.fault_payload is not None:
+                return 'rcs380p %s %s' % (direction, hexarg(w.sim.fault_payload))
         if d == 'udp' and kind == 'garbled':
             return 'udp ' + hexarg(fault[1])
         return None
@@ -233,8 +240,10 @@ class Runner(object):
                 want = got.split()[1].split(':')[0]
                 good = obs == want
             elif got.startswith('data'):
-                # the exchange goes on as without the fault (a later step decides), or the datagram is skipped
-                good = obs == baseline or (case['driver'] == 'udp' and obs in ('ok', 'TimeoutError'))
+                # the exchange goes on as without the fault (a later step decides), or the datagram is skipped;
+                # with a truncated payload the later steps see other data, nothing to compare then
+                good = obs == baseline or (case['driver'] == 'udp' and obs in ('ok', 'TimeoutError')) or \
+                    case['fault'][0] == 'payload'
             else:
                 good = obs == 'ok'
             if 'UNDOCUMENTED' in got:
@@ -244,6 +253,12 @@ class Runner(object):
                 ck.correspondence_mismatch('drvmap', dict(case, model=got, query=line))
         ck.cov['traces_validated_against_impl'] = len(self.model_q) - nmis
         ck.cov['skeleton_membership_checks'] = self.n_membership
+
+
+def payload_faults(payload_len, thorough):
+    """well-formed response whose payload is cut to n < payload_len bytes - at every host command"""
+    ns = range(payload_len) if (thorough or payload_len <= 14) else list(range(12)) + [payload_len - 2, payload_len - 1]
+    return [('payload', n) for n in ns]
 
 
 def runt_faults(d, cmd, thorough):
@@ -257,9 +272,9 @@ def runt_faults(d, cmd, thorough):
     return fs
 
 
-def fault_set(ck, d, cmd, has_status, frame_len, thorough):
+def fault_set(ck, d, cmd, has_status, frame_len, thorough, payload_len=0, full_sweep=True):
     rng = ck.rng
-    fs = []
+    fs = payload_faults(payload_len, thorough)
     if d == 'udp':
         fs += [('gone',)]
         if cmd == 'sendto':
@@ -282,8 +297,12 @@ def fault_set(ck, d, cmd, has_status, frame_len, thorough):
             words += [0xFFFFFFFF, 0x80 | 0x400, 0x00000000]
             words += [rng.getrandbits(32) for _ in range(200 if not thorough else 3000)]
             fs += [('status32', x) for x in words]
-        else:
+        elif full_sweep:
             fs += [('status', c) for c in range(256)]
+        else:
+            # the same command on the same code path was swept with all 256 codes in an earlier scenario of this kind
+            fs += [('status', c) for c in sorted({0, 1, 2, 0x0A, 0x13, 0x27, 0x29, 0x31, 0x40, 0x41, 0x7F, 0x80, 0xFE, 0xFF} |
+                                                 {rng.randrange(256) for _ in range(10)})]
         fs.append(('empty',))
     fs += [('errframe',), ('timeout', 'ack'), ('timeout', 'rsp'), ('gone',)]
     for no in IOERRNOS:
@@ -305,11 +324,11 @@ def fault_set(ck, d, cmd, has_status, frame_len, thorough):
     return fs
 
 
-def phys_fault_set(ck, d, cmd, has_status, frame_len, thorough):
+def phys_fault_set(ck, d, cmd, has_status, frame_len, thorough, payload_len=0):
     """host-link faults seen through transport.py; the status maps do not depend on the layer, so only
     a sample of codes is repeated here"""
     rng = ck.rng
-    fs = []
+    fs = payload_faults(payload_len, thorough)
     if has_status:
         if d == 'rcs380' and cmd in (0x04, 0x48):
             fs += [('status32', x) for x in (0x80, 0x400, 0x480, 1, 0x80000000, rng.getrandbits(32))]
@@ -328,7 +347,11 @@ def phys_fault_set(ck, d, cmd, has_status, frame_len, thorough):
     fs += [('garbled', bytes.fromhex(h)) for h in ('00', '0000', '0000ff', '0000ffff', '0000ffffff', '0000ffffff01', '0000ffffff0102',
                                                    '0000ffffff010203', '0000ff05', '0000ff05fb', '0000ff00ff', '0000ff00ff00',
                                                    '0000ffffff0010f00000000000', '80', '8000000000')]
-    fs += runt_faults(d, cmd, thorough)
+    if thorough or W.PHYS_KIND[d] == 'tty':
+        # transport.USB hands frames through unchanged (same as the API layer pass); the serial byte stream does not
+        fs += runt_faults(d, cmd, thorough)
+    else:
+        fs += [f for f in runt_faults(d, cmd, False) if len(f[1]) <= 7]
     return fs
 
 
@@ -346,6 +369,12 @@ CORPUS = [
     ('arygon-a', 'tt2-read', 3, ('ackgarbled', bytes.fromhex('0000ffffff00'))), ('pn532', 'listen-tt3', 1, ('garbled', bytes.fromhex('0000ffffff00'))),
     ('pn532', 'tt2-read', 3, ('garbled', bytes.fromhex('0000ffffff0000'))), ('pn532', 'tt2-read', 3, ('garbled', bytes.fromhex('0000ff0000'))),
     ('rcs380', 'tt2-read', 3, ('garbled', bytes.fromhex('0000ffffff00'))), ('rcs380', 'tt2-read', 3, ('ackgarbled', bytes.fromhex('0000ffffff0500'))),
+    # well-formed answers with too short a payload at commands without status byte (c13-8, c13-9)
+    ('pn532', 'tt2-read', 0, ('payload', 0)), ('pn532', 'tt2-read', 0, ('payload', 1)), ('pn532', 'tt2-read', 0, ('payload', 2)),
+    ('rcs956', 'tt3-check', 0, ('payload', 0)), ('pn531', 'listen-tt3', 1, ('payload', 1)), ('pn533', 'tt2-read', 0, ('payload', 3)),
+    ('acr122', 'tt4a-apdu', 0, ('payload', 2)), ('pn532', 'tt1-read8', 5, ('payload', 0)),
+    ('rcs380', 'tt3-check', 2, ('payload', 1)), ('rcs380', 'tt2-read', 3, ('payload', 3)), ('rcs380', 'dep-target', 0, ('payload', 2)),
+    ('rcs380', 'listen-tt4', 0, ('payload', 6)),
     ('udp', 'tt2-read', 1, ('garbled', b'106A zz')), ('udp', 'dep-target', 1, ('garbled', b'\xff\xfe 00')),
     ('udp', 'tt4a-apdu', 1, ('garbled', b'106A 0')),
 ]
@@ -376,8 +405,8 @@ def main():
                       'fault domain of the injection runs: the host link misbehaves at the transport API (read/write of whole '
                       'frames) and, in a second pass, below the real transport.TTY / transport.USB objects (fake serial byte '
                       'stream, fake libusb handle raising USBError*); UDP: below the socket API',
-                      'a well-formed response frame whose payload is shorter than the command promises is injected only '
-                      'for commands that carry a status byte (the driver maps it to its error 0xFF)',
+                      'a well-formed response frame with a payload of every length shorter than the normal one is injected at '
+                      'every host command; longer-than-expected or differently valued register contents are not',
                       'exchange timeouts are numbers (as every caller inside nfcpy passes them), not None',
                       'RC-S380: a response frame that cannot be used (wrong type / code / truncated) makes '
                       'send_cmd_recv_rsp return None; the monitor accepts None as a documented return value'] + \
@@ -425,6 +454,7 @@ def main():
         ck.violation('frontend:no-target', 'exchange without target did not return None', {})
 
     # ---- injections
+    swept = set()
     for d in W.DRIVERS:
         for sc in W.scenarios_for(d):
             w = run.world(d)
@@ -443,6 +473,7 @@ def main():
                 w.sim.bad_commands = []
             trace = list(w.sim.trace)
             flens = dict(getattr(w.sim, 'frame_lens', {}))
+            plens = dict(getattr(w.sim, 'payload_lens', {}))
             if len(trace) > 14:
                 # long register-programming sequences (Type 1 special paths): first, last and sampled commands
                 mid = trace[8:-4]
@@ -450,7 +481,10 @@ def main():
                 trace = trace[:8] + sorted(pick) + trace[-4:]
             for (k, cmd, has_status) in trace:
                 flen = max(flens.get(k, 0), 12)
-                for f in fault_set(ck, d, cmd, has_status, flen, not quick):
+                full = (not quick) or (d, sc.kind, cmd) not in swept
+                if has_status:
+                    swept.add((d, sc.kind, cmd))
+                for f in fault_set(ck, d, cmd, has_status, flen, not quick, plens.get(k, 0), full):
                     run.one(d, sc, k, cmd, f, baseline)
     # ---- the same below transport.TTY / transport.USB (fake serial line, fake libusb handle)
     for d in W.DRIVERS:
@@ -468,12 +502,13 @@ def main():
                 continue
             trace = list(w.sim.trace)
             flens = dict(w.sim.frame_lens)
+            plens = dict(w.sim.payload_lens)
             if len(trace) > 10 and quick:
                 trace = trace[:6] + trace[-3:]
             elif len(trace) > 30:
                 trace = trace[:12] + sorted(ck.rng.sample(trace[12:-6], 12)) + trace[-6:]
             for (k, cmd, has_status) in trace:
-                for f in phys_fault_set(ck, d, cmd, has_status, max(flens.get(k, 0), 12), not quick):
+                for f in phys_fault_set(ck, d, cmd, has_status, max(flens.get(k, 0), 12), not quick, plens.get(k, 0)):
                     run.one(d, sc, k, cmd, f, baseline, 'phys')
     run.compare_models()
     ck.finish(level='proof',
